@@ -71,7 +71,9 @@ PROPS = {
                 rule="one evaluation = one concurrent history (2-4 clients x 2-5 calls on 1-2 shared names, DB API or handlers) under a seeded baton schedule with park points at every mutex acquisition, audit write, WhoIs call and transport delivery/response, decided by porcupine against the map model with a final sequential read-out; second stage: the same workloads free-running under the race detector; distinct = distinct canonical event-log hash (schedule + results); non-trivial = at least one scheduling step",
                 probes_required=["lock-contention", "porcupine-ok"],
                 assumptions=["interleavings are controlled at lock/seam granularity; finer effects are visible only to the race-detector stage, whose reports replay as 'same workload seed, re-run'", "porcupine timeouts (30 s) are counted as inconclusive, never reported"]),
-    "C09": dict(level="exploration", stages=[dict(kind="sim", quick=30, thorough=600),
+    "C09": dict(level="exploration", stages=[dict(kind="sim", engine="dbworld-cond,dbworld-conc", quick=30, thorough=600),
+                                             dict(kind="sim", name="race", engine="dbworld-conc-free", race=True, instrumented=False, workers=8, quick=10, thorough=200,
+                                                  env={"VERIF_GOMAXPROCS": "4", "GORACE": "halt_on_error=1 exitcode=66", "VERIF_PRINT_START": "1"}),
                                              dict(kind="mod", module="crashfs", db=True, cache=False, faults="error", kinds=["activate"], per_kind_quick=1, per_kind_thorough=6, quick=30, thorough=300)],
                 rule="one evaluation = one seeded history biased to conditional gets with V drawn from {active, older, deleted, larger, 0}, through DB API, handlers+Client and FileClient; distinct = distinct canonical event-log hash; non-trivial = executed at least one call",
                 assumptions=["sequential callers; concurrency of activation with conditional gets is C14's"]),
@@ -183,6 +185,13 @@ def run_property(ck, b, prop, cfg, tier, seed, replay, t0):
             for path in tot["violations"]:
                 rp = json.load(open(path))
                 conf = ck.replay_once(binary, prop, path, outdir, extra_env=st.get("env"))
+                if st.get("race") and not conf.get("same_oracle"):
+                    # free-running stage: the workload is replayed from its seed,
+                    # the Go scheduler is not; give the same workload a few more goes
+                    for _ in range(7):
+                        conf = ck.replay_once(binary, prop, path, outdir, extra_env=st.get("env"))
+                        if conf.get("same_oracle"):
+                            break
                 keep = os.path.join(os.environ.get("VERIF_REPLAYS_DIR") or os.path.join(ck.VERIF, "replays"), prop)
                 os.makedirs(keep, exist_ok=True)
                 dst = os.path.join(keep, os.path.basename(path))
